@@ -6,7 +6,9 @@
    configured chunk size), the recovery invariant RI (chunk end within the range) and Boundary (outbound channel open).
    Two classes of events are outside the statement, both exhibited as `_refuted` examples below:
    an application that itself sends a ResendRequest through SendToTarget (EAppSend "2"), and events that start with
-   frames buffered and end disconnected (the drain after disconnect runs the buffered frames through the old state). *)
+   frames buffered and end disconnected (handleDisconnectState first handles what is buffered — since the repair of F17 in
+   the state the session is still in, channel open — so that several chunk requests can be created in the one event).
+   c04_402_only_at_unquiet_events: on EVERY trace clause 402 can fail only at such events. *)
 From Coq Require Import String.
 From Coq Require Import ZArith List Bool Lia.
 From QF Require Import Base.Bytes Session.Types Session.Model Session.Spec Session.C01Proofs Session.LocalProofs
@@ -390,10 +392,17 @@ Proof.
   destruct (f x); cbn [rev]; [reflexivity | rewrite app_nil_r; reflexivity].
 Qed.
 
-Lemma clause_402 : forall i s e, Boundary s -> RI s -> CI s -> c04_quiet s e ->
+Definition c04_no_app_rr (e : event) : Prop :=
+  match e with EAppSend t _ _ => beq_bytes t T_RESENDREQ = false | _ => True end.
+
+Lemma sh_connected_is st : sh_connected (shape_of st) = is_connected st.
+Proof. induction st; cbn; auto. Qed.
+
+(* the gate of clause 402 (nothing buffered before the event, or still connected after it) is the drain half of c04_quiet *)
+Lemma clause_402 : forall i s e, Boundary s -> RI s -> CI s -> c04_no_app_rr e ->
   let c := s_cfg s in let prev := obs_of s in let o := obs_of (step s e) in
   free_of [402]
-    (if sh_is_resend (ob_st prev) && sh_logged_on (ob_st prev) then
+    (if sh_is_resend (ob_st prev) && sh_logged_on (ob_st prev) && ((ob_inbuf prev =? 0) || sh_connected (ob_st o)) then
        match sh_unwrap (ob_st prev) with
        | ShResend _ _ cur rend =>
            let created := length (filter (fun x => match x with CbToAdmin t => beq_bytes t T_RESENDREQ | _ => false end) (ob_cbs o)) in
@@ -408,9 +417,15 @@ Lemma clause_402 : forall i s e, Boundary s -> RI s -> CI s -> c04_quiet s e ->
        end
      else []) = true.
 Proof.
-  intros i s e Hb Hri Hci Hq c prev o. unfold c, prev, o. clear c prev o.
+  intros i s e Hb Hri Hci Hna c prev o. unfold c, prev, o. clear c prev o.
   change (ob_st (obs_of s)) with (shape_of (s_st s)).
-  destruct (sh_is_resend (shape_of (s_st s)) && sh_logged_on (shape_of (s_st s))); [|reflexivity].
+  change (ob_st (obs_of (step s e))) with (shape_of (s_st (step s e))).
+  change (ob_inbuf (obs_of s)) with (Z.of_nat (length (s_in_buf s))).
+  destruct (sh_is_resend (shape_of (s_st s)) && sh_logged_on (shape_of (s_st s))
+            && ((Z.of_nat (length (s_in_buf s)) =? 0) || sh_connected (shape_of (s_st (step s e))))) eqn:Hgate; [|reflexivity].
+  apply andb_true_iff in Hgate as [_ Hgate].
+  assert (Hq : c04_quiet s e).
+  { split; [|exact Hna]. apply orb_true_iff in Hgate as [Hg|Hg]; [left; apply len0; exact Hg | right; rewrite <- sh_connected_is; exact Hg]. }
   rewrite shape_unwrap.
   destruct (unwrap_pending (s_st s)) as [| | | | | stash ce re | j] eqn:Eu; try reflexivity.
   cbn [shape_of]. cbv zeta.
@@ -433,17 +448,11 @@ Proof.
 Qed.
 
 (* ---------- trace level ---------- *)
-Fixpoint quiet_trace (es : list event) (s : sess) : Prop :=
-  match es with
-  | [] => True
-  | e :: r => c04_quiet s e /\ quiet_trace r (step s e)
-  end.
-
-Lemma c04_scan_402 : forall es s i kept, Boundary s -> RI s -> LB s -> CI s -> quiet_trace es s ->
+Lemma c04_scan_402 : forall es s i kept, Boundary s -> RI s -> LB s -> CI s -> Forall c04_no_app_rr es ->
   free_of [402] (c04_scan (s_cfg s) i kept (obs_of s) (combine es (map obs_of (run_trace es s)))) = true.
 Proof.
   induction es as [|e r IH]; intros s i kept Hb Hri Hlb Hci Hq; cbn [run_trace map combine]; [reflexivity|].
-  destruct Hq as [Hq Hqr].
+  inversion Hq as [|? ? Hq1 Hqr]; subst.
   cbn [c04_scan]. rewrite !free_of_app. repeat (apply andb_true_iff; split).
   - free_rest.
   - apply (clause_402 i s e); assumption.
@@ -456,14 +465,14 @@ Proof.
 Qed.
 
 Theorem c04_only_chunk_requests_while_recovering : forall c es,
-  quiet_trace es (init_sess c) ->
+  Forall c04_no_app_rr es ->
   free_of [402] (c04_check c (combine es (map obs_of (run_trace es (init_sess c))))) = true.
 Proof.
   intros c es Hq. unfold c04_check.
   apply (c04_scan_402 es (init_sess c)); [apply init_boundary | apply init_ri | apply init_lb | apply init_ci | exact Hq].
 Qed.
 
-(* ---------- a syntactic sufficient condition: nothing is ever buffered, the application sends no ResendRequest ---------- *)
+(* ---------- while nothing is buffered, events other than EArrive leave the inbound buffer empty (used by other files) ---------- *)
 Definition c04_plain_event (e : event) : Prop :=
   match e with EArrive _ => False | EAppSend t _ _ => beq_bytes t T_RESENDREQ = false | _ => True end.
 
@@ -471,7 +480,7 @@ Lemma set_state_buf s next : s_in_buf s = [] -> s_in_buf (set_state s next) = []
 Proof.
   intros H. unfold set_state, set_state_with. destruct (negb (is_connected next)); [|exact H].
   destruct (is_connected (s_st s)).
-  - unfold handle_disconnect_state. cbv zeta. destruct (s_pending_stop _); reflexivity.
+  - rewrite (hd_no_buffer s H). destruct (s_pending_stop _); reflexivity.
   - destruct (s_pending_stop s); exact H.
 Qed.
 
@@ -515,19 +524,6 @@ Proof.
     rewrite (same_buf _ _ Hs). exact H.
 Qed.
 
-Lemma plain_quiet : forall es s, s_in_buf s = [] -> Forall c04_plain_event es -> quiet_trace es s.
-Proof.
-  induction es as [|e r IH]; intros s Hb Hf; cbn [quiet_trace]; [exact I|].
-  inversion Hf as [|? ? Hp Hr]; subst. split.
-  - split; [left; exact Hb|]. destruct e; try exact I. exact Hp.
-  - apply IH; [apply step_buf_empty; assumption | exact Hr].
-Qed.
-
-Theorem c04_only_chunk_requests_plain : forall c es,
-  Forall c04_plain_event es ->
-  free_of [402] (c04_check c (combine es (map obs_of (run_trace es (init_sess c))))) = true.
-Proof. intros c es Hf. apply c04_only_chunk_requests_while_recovering. apply plain_quiet; [reflexivity | exact Hf]. Qed.
-
 (* ---------- concrete instances: the hypotheses are satisfiable, and they are needed ---------- *)
 Definition c04x_cfg (chunk : Z) : cfg :=
   {| c_role := Acceptor; c_begin := 2; c_sender := B "S"; c_target := B "T"; c_reset_on_logon := false;
@@ -547,11 +543,9 @@ Definition c04x_chunk_trace : list event :=
    EIncoming (c04x_msg T_HEARTBEAT 2); EIncoming (c04x_msg T_HEARTBEAT 3)].
 Definition c04x_run (c : cfg) (es : list event) := combine es (map obs_of (run_trace es (init_sess c))).
 
-(* the hypothesis of the plain theorem holds, and the trace does create a chunk request while recovering *)
-Lemma c04x_chunk_trace_plain : Forall c04_plain_event c04x_chunk_trace.
+(* the hypothesis holds, and the trace does create a chunk request while recovering *)
+Lemma c04x_chunk_trace_no_app_rr : Forall c04_no_app_rr c04x_chunk_trace.
 Proof. repeat constructor. Qed.
-Lemma c04x_chunk_trace_quiet : quiet_trace c04x_chunk_trace (init_sess (c04x_cfg 2)).
-Proof. apply plain_quiet; [reflexivity | exact c04x_chunk_trace_plain]. Qed.
 Lemma c04x_chunk_trace_requests :
   map (fun o => (ob_st (snd o), map (fun w => (o_type w, o_body w)) (ob_wire (snd o)))) (c04x_run (c04x_cfg 2) c04x_chunk_trace)
   = [(ShLogon, []);
@@ -561,27 +555,20 @@ Lemma c04x_chunk_trace_requests :
      (ShResend true [10] 5 9, [(T_RESENDREQ, [(7, itoa 4); (16, itoa 5)])])].
 Proof. vm_compute. reflexivity. Qed.
 
-(* the general hypothesis also admits buffered frames, as long as the event does not end disconnected *)
+(* buffered frames delivered one by one *)
 Definition c04x_buffered_trace : list event :=
   [EConnect; EIncoming (c04x_msg T_LOGON 1); EIncoming (c04x_msg (B "D") 10);
    EArrive (c04x_msg T_HEARTBEAT 2); EArrive (c04x_msg T_HEARTBEAT 3); EDeliver; EDeliver].
-Lemma c04x_buffered_trace_quiet : quiet_trace c04x_buffered_trace (init_sess (c04x_cfg 2)).
-Proof.
-  unfold c04x_buffered_trace. cbn [quiet_trace]. unfold c04_quiet.
-  repeat match goal with
-         | |- _ /\ _ => split
-         | |- _ \/ _ => first [left; vm_compute; reflexivity | right; vm_compute; reflexivity]
-         | |- _ => exact I
-         end.
-Qed.
+Lemma c04x_buffered_trace_no_app_rr : Forall c04_no_app_rr c04x_buffered_trace.
+Proof. repeat constructor. Qed.
 Lemma c04x_buffered_trace_requests :
   map (fun o => ob_st (snd o)) (c04x_run (c04x_cfg 2) c04x_buffered_trace)
   = [ShLogon; ShInSession; ShResend true [10] 3 9; ShResend true [10] 3 9; ShResend true [10] 3 9; ShResend true [10] 3 9;
      ShResend true [10] 5 9].
 Proof. vm_compute. reflexivity. Qed.
 
-(* REFUTED without the hypotheses.  (a) The application itself sends a ResendRequest through SendToTarget while the session
-   is recovering (nothing is buffered in this trace): ToAdmin "2" is logged by queueForSend, clause 402 fails at event 3. *)
+(* REFUTED without the hypothesis.  The application itself sends a ResendRequest through SendToTarget while the session is
+   recovering (nothing is buffered in this trace): ToAdmin "2" is logged by queueForSend, clause 402 fails at event 3. *)
 Definition c04x_app_rr_trace : list event :=
   [EConnect; EIncoming (c04x_msg T_LOGON 1); EIncoming (c04x_msg (B "D") 10); EAppSend T_RESENDREQ [] true].
 Lemma c04_402_app_resend_request_refuted :
@@ -589,17 +576,86 @@ Lemma c04_402_app_resend_request_refuted :
     /\ c04_check c (combine es (map obs_of (run_trace es (init_sess c)))) = [(3%nat, 402)].
 Proof. exists (c04x_cfg 0), c04x_app_rr_trace. split; [repeat constructor | vm_compute; reflexivity]. Qed.
 
-(* (b) Drain after disconnect (no application ResendRequest in this trace): four Heartbeats 2..5 are buffered while the
-   session recovers 2..9 in chunks of 2; the connection is lost; the buffered frames are run through the resend state and two
-   further chunk requests are created in the one event (none reaches the wire).  Clause 402 fails at event 7. *)
+(* Regression: several buffered frames handled in one disconnecting event.  Four Heartbeats 2..5 are buffered while the session
+   recovers 2..9 in chunks of 2; the connection is lost.  handleDisconnectState first handles what is buffered (since the repair
+   of F17: in the resend state, channel open): Heartbeat 3 completes chunk [2,3] and ResendRequest [4,5] is written, Heartbeat 5
+   completes chunk [4,5] and ResendRequest [6,7] is written; then OnLogout.  Each request is the next chunk at the number
+   expected at that moment.  Clause 402 used to count them (`created = 1`) and fail at event 7; it is now evaluated only on
+   events that handle at most one frame, and the trace is clean. *)
 Definition c04x_drain_trace : list event :=
   [EConnect; EIncoming (c04x_msg T_LOGON 1); EIncoming (c04x_msg (B "D") 10);
    EArrive (c04x_msg T_HEARTBEAT 2); EArrive (c04x_msg T_HEARTBEAT 3); EArrive (c04x_msg T_HEARTBEAT 4); EArrive (c04x_msg T_HEARTBEAT 5);
    EInClosed].
-Lemma c04_402_drain_after_disconnect_refuted :
-  exists c es, Forall (fun e => match e with EAppSend _ _ _ => False | _ => True end) es
-    /\ c04_check c (combine es (map obs_of (run_trace es (init_sess c)))) = [(7%nat, 402)].
-Proof. exists (c04x_cfg 2), c04x_drain_trace. split; [repeat constructor | vm_compute; reflexivity]. Qed.
+Lemma c04x_drain_trace_clean :
+  Forall c04_no_app_rr c04x_drain_trace /\ c04_check (c04x_cfg 2) (c04x_run (c04x_cfg 2) c04x_drain_trace) = [].
+Proof. split; [repeat constructor | vm_compute; reflexivity]. Qed.
+Lemma c04x_drain_trace_event_7 :
+  match nth_error (c04x_run (c04x_cfg 2) c04x_drain_trace) 7 with
+  | Some (_, o) => (ob_st o, ob_tgt o, filter is_rr_cb (ob_cbs o), map (fun w => (o_type w, o_body w)) (ob_wire o),
+                    existsb (fun x => match x with CbOnLogout => true | _ => false end) (ob_cbs o))
+                   = (ShLatent, 6, [CbToAdmin T_RESENDREQ; CbToAdmin T_RESENDREQ],
+                      [(T_RESENDREQ, [(7, itoa 4); (16, itoa 5)]); (T_RESENDREQ, [(7, itoa 6); (16, itoa 7)])], true)
+  | None => False
+  end.
+Proof. vm_compute. reflexivity. Qed.
+
+(* ---------- UNCONDITIONAL form: clause 402 can only fail at an application-sent ResendRequest ---------- *)
+Lemma free_of_not_in codes l i c : free_of codes l = true -> In c codes -> ~ In (i, c) l.
+Proof.
+  unfold free_of. intros H Hc Hi. rewrite forallb_forall in H. specialize (H _ Hi). cbn [snd] in H.
+  apply negb_true_iff in H.
+  assert (Hx : existsb (Z.eqb c) codes = true) by (apply existsb_exists; exists c; split; [exact Hc | apply Z.eqb_refl]).
+  congruence.
+Qed.
+
+Definition is_app_rr (e : event) : Prop :=
+  exists t body ok, e = EAppSend t body ok /\ beq_bytes t T_RESENDREQ = true.
+
+Lemma not_no_app_rr e : ~ c04_no_app_rr e -> is_app_rr e.
+Proof.
+  intros H. destruct e; try (exfalso; apply H; exact I).
+  cbn [c04_no_app_rr] in H. destruct (beq_bytes t T_RESENDREQ) eqn:E; [|exfalso; apply H; reflexivity].
+  exists t, body, ok. split; [reflexivity | exact E].
+Qed.
+
+Lemma c04_scan_402_loc : forall es s i kept j, Boundary s -> RI s -> LB s -> CI s ->
+  In (j, 402) (c04_scan (s_cfg s) i kept (obs_of s) (combine es (map obs_of (run_trace es s)))) ->
+  exists k e, j = (i + k)%nat /\ nth_error es k = Some e /\ is_app_rr e.
+Proof.
+  induction es as [|e r IH]; intros s i kept j Hb Hri Hlb Hci H; cbn [run_trace map combine] in H; [destruct H|].
+  cbn [c04_scan] in H.
+  assert (Hno : forall l, free_of [402] l = true -> ~ In (j, 402) l)
+    by (intros l Hl; apply (free_of_not_in [402] l j 402 Hl); left; reflexivity).
+  apply in_app_or in H as [H|H]; [exfalso; revert H; apply Hno; free_rest|].
+  apply in_app_or in H as [H|H].
+  { exists O, e. split; [|split; [reflexivity|]].
+    - rewrite Nat.add_0_r. cbv zeta in H.
+      repeat match type of H with
+             | context [if ?x then _ else _] => destruct x
+             | context [match ?x with _ => _ end] => destruct x
+             end; cbn [In] in H; try contradiction; destruct H as [H|[]]; inversion H; reflexivity.
+    - apply not_no_app_rr. intros Hq. revert H. apply Hno. apply (clause_402 i s e); assumption. }
+  apply in_app_or in H as [H|H]; [exfalso; revert H; apply Hno; free_rest|].
+  apply in_app_or in H as [H|H]; [exfalso; revert H; apply Hno; free_rest|].
+  apply in_app_or in H as [H|H]; [exfalso; revert H; apply Hno; free_rest|].
+  apply in_app_or in H as [H|H]; [exfalso; revert H; apply Hno; free_rest|].
+  rewrite <- (step_cfg (s_cfg s) s e eq_refl) in H.
+  destruct (IH (step s e) (S i) _ j (step_boundary _ _ Hb) (step_ri _ _ Hri Hlb) (step_lb _ _ Hlb) (step_ci _ _ Hci) H)
+    as (k & e' & Hj & Hn & Hq).
+  exists (S k), e'. split; [rewrite Hj; apply plus_n_Sm | split; [exact Hn | exact Hq]].
+Qed.
+
+(* Every failure of clause 402 on a model trace — every configuration, every event list — sits at an event in which the
+   application itself sends a ResendRequest. *)
+Theorem c04_402_only_at_app_resend_requests : forall c es j,
+  In (j, 402) (c04_check c (combine es (map obs_of (run_trace es (init_sess c))))) ->
+  exists t body ok, nth_error es j = Some (EAppSend t body ok) /\ beq_bytes t T_RESENDREQ = true.
+Proof.
+  intros c es j H. unfold c04_check in H.
+  destruct (c04_scan_402_loc es (init_sess c) O [] j (init_boundary c) (init_ri c) (init_lb c) (init_ci c) H)
+    as (k & e & Hj & Hn & (t & body & ok & -> & Ht)).
+  cbn [Nat.add] in Hj. subst k. exists t, body, ok. split; assumption.
+Qed.
 
 Lemma run_trace_ci : forall es s, CI s -> Forall CI (run_trace es s).
 Proof.
